@@ -78,6 +78,7 @@ struct Model {
       case OP_POP_TRACER: return st.ntracer > 0;
       case OP_SET_REPORTER: return true;
       case OP_ARM_REPORTER: return st.armed == 0 && st.obj_alive[op.obj];
+      case OP_ARM_OK: return st.armed_ok == 0;
     }
     return false;
   }
@@ -212,7 +213,11 @@ struct Model {
     const Shape& sh = g_shapes[c.shape];
     std::string tr_prefix;
     bool tracing = st.ntracer > 0;
-    if (tracing) { std::ostringstream t; t << 'T' << (int)(st.ntracer - 1) << ':' << chosen << ":args=" << args << ':'; tr_prefix = t.str(); }
+    bool pushes_tracer = false;
+    for (int i = 0; i < sh.nse; ++i) if (c.semode[i] == 4) pushes_tracer = true;
+    // '~': the statement does not say which tracer gets the record of a call during which a new tracer is constructed (tracer index not compared)
+    if (tracing) { std::ostringstream t; t << (pushes_tracer ? "~" : "") << 'T' << (int)(st.ntracer - 1) << ':' << chosen << ":args=" << args << ':'; tr_prefix = t.str(); }
+    else if (pushes_tracer) { std::ostringstream t; t << "?~T0:" << chosen << ":args=" << args << ':'; tr_prefix = t.str(); tracing = true; }
     if (c.hi == 0) {
       Report r; r.fatal = true; r.kind = R_FORBIDDEN; r.slot = chosen; r.gen = st.repgen; r.detail = "args=" + args;
       o.reps.push_back(r); c.reported = 1;
@@ -235,12 +240,14 @@ struct Model {
       for (int i = 0; i < c.nseq; ++i) seq_erase(c.seqs[i], chosen);
     }
     { std::ostringstream k; k << (int)st.okgen << ':' << chosen; o.oks.push_back(k.str()); }
+    if (st.armed_ok) { st.repgen = st.okgen = (uint8_t)(st.armed_ok - 1); st.armed_ok = 0; }  // set_reporter called from inside the OK callback
     if (top) { o.handler = chosen; }
     int status = 0; std::string result;
     uint8_t semode[3], actmode = c.actmode; std::memcpy(semode, c.semode, 3);
     for (int i = 0; i < sh.nse && status == 0; ++i) {
       { std::ostringstream k; k << 'S' << chosen << '.' << i; o.clog.push_back(k.str()); }
       if (semode[i] == 1) { status = 1; std::ostringstream k; k << "se:" << chosen << '.' << i; result = k.str(); }
+      else if (semode[i] == 4) { if (st.ntracer < NTRC) st.tracer_kind[st.ntracer++] = 0; }  // a tracer whose lifetime begins inside the call
       else if (semode[i] == 2 || semode[i] == 3) {
         int nfn = semode[i] == 2 ? (int)G1 : (int)F1, na = semode[i] == 2 ? a1 : a1 + 1;
         if (semode[i] == 3 && a1 >= 2) continue;
@@ -259,12 +266,13 @@ struct Model {
         case ACT_THROW_STD: { std::ostringstream l; l << 'R' << chosen; o.clog.push_back(l.str()); } status = 1; k << "e:t" << chosen; break;
         case ACT_NONE: k << "void"; break;
         case ACT_RETCAP: k << "cref:" << 700 + chosen; break;
+        case ACT_RETSTR: { std::ostringstream l; l << 'R' << chosen; o.clog.push_back(l.str()); } k << "s:str" << chosen; break;
       }
       result = k.str();
     }
     if (tracing) {
       std::string t = tr_prefix;
-      if (status == 0) { if (sh.act == ACT_RET) { std::ostringstream k; k << "-> " << 100 + chosen; t += k.str(); } else if (sh.act == ACT_RETREF) { std::ostringstream k; k << "-> " << 500 + chosen; t += k.str(); } else if (sh.act == ACT_RETCAP) { std::ostringstream k; k << "-> " << 700 + chosen; t += k.str(); } }
+      if (status == 0) { if (sh.act == ACT_RET) { std::ostringstream k; k << "-> " << 100 + chosen; t += k.str(); } else if (sh.act == ACT_RETREF) { std::ostringstream k; k << "-> " << 500 + chosen; t += k.str(); } else if (sh.act == ACT_RETCAP) { std::ostringstream k; k << "-> " << 700 + chosen; t += k.str(); } else if (sh.act == ACT_RETSTR) { std::ostringstream k; k << "-> str" << chosen; t += k.str(); } }
       else if (result.compare(0, 2, "e:") == 0) t += "threw exception: what() = " + result.substr(2);
       else t += "threw unknown exception";
       o.traces.push_back(t);
@@ -358,6 +366,7 @@ struct Model {
       case OP_CALL: do_call(op.obj, op.fn, op.a1, op.a2, o, true); break;
       case OP_DESTROY_MOCK: destroy_mock_inline(op.obj, o); break;
       case OP_ARM_REPORTER: st.armed = (uint8_t)(1 + op.obj); break;
+      case OP_ARM_OK: st.armed_ok = (uint8_t)(1 + op.k1); break;
       case OP_MOVE_MOCK: {
         for (auto& e : st.e) if (e.alive && !e.is_monitor && e.hooked && e.obj == op.obj) e.obj = (uint8_t)op.k1;
         st.obj_alive[op.k1] = 1;
